@@ -42,16 +42,16 @@ Definition ebool (b : bool) : list Z := [if b then 1%Z else 0%Z].
 Definition pelem : parser (elem CQ) :=
   let* c := pZ in let* name := plabel in
   match c with
-  | 1 => let* z := pCQ in pret (impedance CQ name z)
-  | 2 => let* y := pCQ in pret (admittance CQ name y)
-  | 3 => let* r := pCQ in pret (resistor CQ name r)
-  | 4 => let* g := pCQ in pret (conductor CQ name g)
-  | 5 => let* v := pCQ in let* z := pCQ in pret (voltage_source CQ name v z)
-  | 6 => let* i := pCQ in let* y := pCQ in pret (current_source CQ name i y)
-  | 7 => pret (open_circuit CQ name)
-  | 8 => pret (short_circuit CQ name)
-  | 9 => let* s := pCQ in let* v := pCQ in pret (load_v CQ name s v)
-  | 10 => let* s := pCQ in let* i := pCQ in pret (load_i CQ name s i)
+  | 1 => let* z := pCQ in pret (impedance name z)
+  | 2 => let* y := pCQ in pret (admittance name y)
+  | 3 => let* r := pCQ in pret (resistor name r)
+  | 4 => let* g := pCQ in pret (conductor name g)
+  | 5 => let* v := pCQ in let* z := pCQ in pret (voltage_source name v z)
+  | 6 => let* i := pCQ in let* y := pCQ in pret (current_source name i y)
+  | 7 => pret (@open_circuit CQ name)
+  | 8 => pret (@short_circuit CQ name)
+  | 9 => let* s := pCQ in let* v := pCQ in pret (load_v name s v)
+  | 10 => let* s := pCQ in let* i := pCQ in pret (load_i name s i)
   | 11 => let* k := pN in let* z := pCQ in let* v := pCQ in pret (ZV name k z v)
   | 12 => let* k := pN in let* y := pCQ in let* i := pCQ in pret (YI name k y i)
   | _ => fun _ => None
@@ -67,5 +67,5 @@ Definition eelem (e : elem CQ) : list Z :=
   | ZV n k z v => 0%Z :: elabel n ++ [Z.of_N k] ++ eCQ z ++ eCQ v
   | YI n k y i => 1%Z :: elabel n ++ [Z.of_N k] ++ eCQ y ++ eCQ i
   end.
-Definition ebranch (b : branch CQ) : list Z := elabel (node1 CQ b) ++ elabel (node2 CQ b) ++ eelem (el CQ b).
-Definition enetwork (n : network CQ) : list Z := elabel (zero CQ n) ++ elist ebranch (branches CQ n).
+Definition ebranch (b : branch CQ) : list Z := elabel (node1 b) ++ elabel (node2 b) ++ eelem (el b).
+Definition enetwork (n : network CQ) : list Z := elabel (zero n) ++ elist ebranch (branches n).
